@@ -197,11 +197,11 @@ pub extern "C" fn write_cb(buf: *const u8, len: u32, ctx: *mut c_void, out: *mut
             c.failed = true;
             c.failed_code = code;
         }
-        if code == 4 {
-            c.eintr_run += 1;
-            if c.eintr_run > 20000 {
-                hang_exit();
-            }
+        // consecutive failing answers without any progress (whatever the code): 20 000 of them are a caller
+        // that retries for ever (4 is retried by design; any other code retried is a defect, reported as a hang)
+        c.eintr_run += 1;
+        if c.eintr_run > 20000 {
+            hang_exit();
         }
         code
     };
